@@ -269,6 +269,42 @@ def _alias_generate_mesh():
                 problems.append("%s: a later call returns the edited mesh" % md["wing_type"])
             if isinstance(a, tuple) and np.shares_memory(a[1], b[1]):
                 problems.append("%s: twist arrays share memory" % md["wing_type"])
+        # Every array a public mesh generator hands back is the caller's: a user who rescales or shifts *all* of what
+        # one call returned (eta to dimensional stations, twist relative to the root, the mesh into another unit) must
+        # not change what the next, independent call returns - also for the low-level generators and for the CRM tables
+        # behind them (seeded change S77: the tables memoised, `eta`/`twist` handed out as views of the shared table).
+        from openaerostruct.geometry.utils import gen_crm_mesh, gen_rect_mesh
+
+        def _arrays(ret):
+            return [x for x in (ret if isinstance(ret, tuple) else (ret,)) if isinstance(x, np.ndarray)]
+
+        calls = [
+            ("gen_crm_mesh(CRM)", lambda: gen_crm_mesh(2, 5, wing_type="CRM")),
+            ("gen_crm_mesh(CRM:jig)", lambda: gen_crm_mesh(3, 7, 0.5, 0.0, "CRM:jig")),
+            ("gen_crm_mesh(CRM:alpha_2.75)", lambda: gen_crm_mesh(2, 5, 0.0, 0.0, "CRM:alpha_2.75")),
+            ("gen_crm_mesh(uCRM_based)", lambda: gen_crm_mesh(2, 5, 0.0, 0.0, "uCRM_based")),
+            ("gen_rect_mesh", lambda: gen_rect_mesh(3, 5, 10.0, 1.0, 0.0, 0.0)),
+            ("generate_mesh(CRM:jig)", lambda: generate_mesh({"num_y": 5, "num_x": 2, "wing_type": "CRM:jig", "symmetry": True, "num_twist_cp": 3})),
+            ("generate_mesh(CRM:alpha_2.75)", lambda: generate_mesh({"num_y": 7, "num_x": 2, "wing_type": "CRM:alpha_2.75", "symmetry": False, "num_twist_cp": 4})),
+            ("generate_mesh(uCRM_based)", lambda: generate_mesh({"num_y": 5, "num_x": 2, "wing_type": "uCRM_based", "symmetry": True, "num_twist_cp": 3})),
+        ]
+        for label, call in calls:
+            first = _arrays(call())
+            pristine = [a.copy() for a in first]
+            for a in first:
+                if a.flags.writeable:  # a read-only return value would be a legitimate defence, not a violation
+                    a *= 1.5
+                    a -= 0.25
+            second = _arrays(call())
+            if len(second) != len(pristine):
+                problems.append("%s: a later call returns %d arrays instead of %d" % (label, len(second), len(pristine)))
+                continue
+            for i, (p0, s1) in enumerate(zip(pristine, second)):
+                if p0.shape != s1.shape or not np.array_equal(p0, s1):
+                    problems.append("%s: after the caller edited what the first call returned, return value %d of the next call differs" % (label, i))
+                    break
+            if any(np.shares_memory(a, b) for a in first for b in second):
+                problems.append("%s: two calls hand out arrays that share memory" % label)
         info["alias"] = problems
         info["stage"] = "completed-no-problem"
     except Exception as e:  # noqa
@@ -745,7 +781,7 @@ def _gen_sweep(seed, tier, rng, nprng):
         model = probes[key]
         pt = {}
         for inp in model.inputs:
-            pt[inp.name] = inp.draw(nprng, rng) if (t >= len(alts) and rng.random() < 0.3) else inp.nom.copy()
+            pt[inp.name] = inp.draw(nprng, rng, inp.c20_special_p) if (t >= len(alts) and rng.random() < 0.3) else inp.nom.copy()
         if zoo.is_wind_off(pt):
             pt["rho"] = model.inp("rho").nom.copy()
         ops = [{"op": "build"}, {"op": "final_setup"}, {"op": "set", "k": 0}, {"op": "run"}]
@@ -842,7 +878,7 @@ def _gen(seed, tier, opts):
         for _ in range(npts):
             pt = {}
             for inp in model.inputs:
-                pt[inp.name] = inp.draw(nprng, rng) if rng.random() < 0.5 else inp.nom.copy()
+                pt[inp.name] = inp.draw(nprng, rng, inp.c20_special_p) if rng.random() < 0.5 else inp.nom.copy()
             if zoo.is_wind_off(pt):
                 # wind-off (rho = 0) makes coefficient-type outputs 0/0: not an input for which "all outputs finite" can
                 # hold, so it is not part of C20's admissible set (C03 and C12 use it, NaN-pattern-aware)
